@@ -16,6 +16,7 @@ func cmdConns(args []string) {
 	seed := fs.Int64("seed", 1, "seed")
 	n := fs.Int("n", 40, "histories")
 	length := fs.Int("len", 40, "steps per history")
+	auth := fs.Bool("auth", false, "the server requires a password: every connection authenticates first, so every command passes through authorization; no SWAPDB steps")
 	_ = fs.Parse(args)
 	quiet()
 	tr, err := NewTrace(*out)
@@ -24,18 +25,30 @@ func cmdConns(args []string) {
 	}
 	r := rand.New(rand.NewSource(*seed))
 	tot := map[string]int{}
-	var samples []any
+	samples := []any{}
 	kvPool = kvCanonValues
 	for h := 0; h < *n; h++ {
-		srv, err := NewSrv(SrvOpts{})
+		opts := SrvOpts{}
+		if *auth {
+			opts = SrvOpts{RequirePass: true, Password: "pw"}
+		}
+		srv, err := NewSrv(opts)
 		if err != nil {
 			die(2, "%v", err)
+		}
+		hello := func(c *PipeClient) {
+			if *auth {
+				if rep := c.Do("AUTH", "pw"); rep.T != "simple" {
+					die(2, "AUTH failed: %+v", rep)
+				}
+			}
+			c.Do("PING") // the handler has registered the connection once it answers
 		}
 		names := []string{"c1", "c2", "c3"}
 		conns := map[string]*PipeClient{}
 		for _, c := range names {
 			conns[c] = Dial(srv.DB)
-			conns[c].Do("PING") // the handler has registered the connection once it answers
+			hello(conns[c])
 		}
 		tr.Emit(map[string]any{"ev": "reset", "run": h, "conns": strs(names), "now": srv.Now()})
 		dbs := []int64{0, 1, 10}
@@ -56,7 +69,7 @@ func cmdConns(args []string) {
 				case 2:
 					cmd = []Tok{S("SELECT")}
 				}
-			case x < 24:
+			case x < 24 && !*auth:
 				kind = "swap"
 				cmd = []Tok{S("SWAPDB"), I(pick(r, dbs)), I(pick(r, dbs))}
 				switch r.Intn(10) {
@@ -75,7 +88,7 @@ func cmdConns(args []string) {
 			if kind == "newconn" {
 				conns[c].Close()
 				conns[c] = Dial(srv.DB)
-				conns[c].Do("PING")
+				hello(conns[c])
 				tr.Emit(map[string]any{"ev": "newconn", "run": h, "c": c, "st": projState(srv.Ep, srv.DB.VerifDump()), "now": srv.Now()})
 				tot["newconn"]++
 				continue
@@ -91,7 +104,7 @@ func cmdConns(args []string) {
 			tr.Emit(ev)
 			tot["commands"]++
 			tot[kind]++
-			if len(samples) < 2 && kind == "swap" {
+			if len(samples) < 2 && (kind == "swap" || (*auth && kind == "data" && rep.T != "err")) {
 				samples = append(samples, ev)
 			}
 			if rep.T == "none" || rep.T == "closed" {
